@@ -24,8 +24,9 @@ theorem c11_source_order :
     soloSrc .addThenStore (init [] [[.push 5]]) 5 = Gen.C11.pushOps.takeWhile (· ≠ .gosched) ∧
     soloSrc .addThenStore (init [9] [[.pop]]) 7 = Gen.C11.popOps ∧
     soloSrc .addThenStore (init [9] [[.len]]) 1 = Gen.C11.lenOps ∧
-    Gen.C11.popWaitOps.takeWhile (· ≠ .ticker) =
-      [.cond "d < 0", .loop, .callPop, .ret, .gosched, .callPop, .ret, .cond "d == 0", .ret] ∧
+    Gen.C11.popWaitOps =
+      [.cond "d < 0", .loop, .callPop, .ret, .gosched, .callPop, .ret, .cond "d == 0", .ret,
+       .ticker, .loop, .other "recv ticker.C", .callPop, .ret, .cond "now.Sub(begin) >= d", .ret] ∧
     soloSrc .addThenStore (init [] [[.popWait true]]) 6 =
       Gen.C11.popOps.take 2 ++ [.gosched] ++ Gen.C11.popOps.take 2 ++ [.gosched] :=
   ⟨facts_push_success_path, facts_pop_success_path, facts_len, facts_popwait_shape,
@@ -164,8 +165,30 @@ theorem c11_history (vals : List Int) (progs : List (List Call)) (σ : List Nat)
     (pr : List Call) (hj : progs[j]? = some pr) :
     ∃ st' th', (run .addThenStore (init vals progs) σ).1.threads[j]? = some th' ∧
       accepts j (pr, .idle) (trace (init vals progs) σ) = some st' ∧
-      st'.1 = th'.cur.toList ++ th'.prog :=
+      st'.1 = th'.cur.toList ++ th'.prog ∧ (isPopPost th'.pc = false → st'.2 = .idle) :=
   accepts_trace vals progs σ j pr hj
+
+/-- `c11_popwait_timed` (conservation per caller; covers `PopWait(d)` with `d > 0`, modelled as
+`Call.popWaitT ticks`: one `Pop`, then one `Pop` per tick — WHEN a tick fires is the
+scheduler's choice, ON WHICH tick the deadline is observed is the input `ticks` — returning
+the first successful `Pop`'s value, or false after the `Pop` of the expiry tick failed; and
+equally `Pop`, `PopWait(0)`, `PopWait(d<0)`).  In every run, for every thread `j`: the values
+its linearization events REMOVED from the list, in order, are exactly the values its calls
+RETURNED with `true`, in order, followed by the value held by its call in flight if that call
+is past its linearization point (`popRead`/`popClear`/`popAdd`) — and by nothing otherwise.
+So a `PopWait` (or `Pop`) that returns false has consumed no value: by `c11_lin_fifo` every
+value that leaves the list does so at a pop linearization event, and each of those is
+delivered to a caller as `(x, true)`. -/
+theorem c11_popwait_timed (vals : List Int) (progs : List (List Call)) (σ : List Nat) (j : Nat)
+    (pr : List Call) (hj : progs[j]? = some pr) :
+    ∃ held th', (run .addThenStore (init vals progs) σ).1.threads[j]? = some th' ∧
+      (trace (init vals progs) σ).filterMap (TEv.linPop? j) =
+        (trace (init vals progs) σ).filterMap (TEv.retTrue? j) ++ held ∧
+      held.length ≤ 1 ∧ (isPopPost th'.pc = false → held = []) := by
+  obtain ⟨st', th', h1, h2, _, h4⟩ := accepts_trace vals progs σ j pr hj
+  have hc := accepts_conservation h2
+  refine ⟨st'.2.vals, th', h1, by simpa [Phase.vals] using hc, ?_, fun h => by rw [h4 h]; rfl⟩
+  cases st'.2 <;> simp [Phase.vals]
 
 /-- `c11_push_completes_solo`: in every reachable state in which all other threads are
 idle, a `Push` at its loop head returns after exactly five of its own steps. -/
@@ -244,7 +267,7 @@ by its own steps alone: ten solo steps leave it spinning; the fair schedule
 example :
     let s := (run .addThenStore (init [] [[.push 5], [.push 6], [.popWait true]]) [0, 0, 0, 1, 1, 2]).1
     (s.threads.map (·.pc)) = [.pushAdd 5 1, .pushYield 6, .popLoadTail 0] ∧
-    unlinked s = 1 ∧ pend { pc := .pushAdd 5 1, prog := [], cur := some (.push 5) } = 0 ∧
+    unlinked s = 1 ∧ pend { pc := .pushAdd 5 1, prog := [], cur := some (.push 5), ticks := 0 } = 0 ∧
     ((run .addThenStore s (List.replicate 10 1)).2.filter (·.ret.isSome)) = [] ∧
     ((run .addThenStore s ([0, 0] ++ List.replicate 7 1)).2.filter (·.ret.isSome)).map (·.tid) = [0, 1] := by
   decide
@@ -258,6 +281,22 @@ example :
     lins (init [4] [[.push 7], [.popWait true], [.pop]])
         [1, 1, 2, 2, 2, 1, 1, 2, 1, 1, 1, 0, 0, 0, 0, 0, 1, 1, 1, 1, 1, 1, 1, 1, 1] =
       [.pop 1 4, .push 0 7] := by
+  decide
+
+/-- Non-vacuity of `c11_popwait_timed`: a timed `PopWait` with expiry on its 2nd tick on an
+empty list.  (a) the push is published between the first tick's `Pop` and the expiry tick:
+the `Pop` of the expiry tick succeeds and the call returns `(7, true)` — the schedule the
+seeded defect C11-C mishandles; (b) the push is published too late: the call returns false
+and the value is still stored. -/
+example :
+    (trace (init [] [[.popWaitT 2], [.push 7]])
+        [0, 0, 0, 0, 0, 1, 1, 1, 1, 1, 0, 0, 0, 0, 0, 0, 0, 0]).filter (fun e => e.tid = 0) =
+      [.lin (.pop 0 7), .ret 0 (.pop 7 true)] ∧
+    (trace (init [] [[.popWaitT 2], [.push 7]])
+        [0, 0, 0, 0, 0, 0, 0, 1, 1, 1, 1, 0, 1]).filter (fun e => e.tid = 0) =
+      [.ret 0 (.pop 0 false)] ∧
+    stored (run .addThenStore (init [] [[.popWaitT 2], [.push 7]])
+        [0, 0, 0, 0, 0, 0, 0, 1, 1, 1, 1, 0, 1]).1 = [7] := by
   decide
 
 /-- Non-vacuity of the linearizability clauses: a reachable instrumented state with a
